@@ -110,6 +110,7 @@ public:
     }
 
     [[nodiscard]] n_keys_body_type get_n_keys() {
+        YK_VP(k_load, &n_keys_, 1, 0);
         return n_keys_.load(std::memory_order_acquire);
     }
 
@@ -137,6 +138,7 @@ public:
                     /**
                      * The key_slice must be left direction of the index.
                      */
+                    YK_VP(k_load, &children.at(i), 8, 0);
                     ret_child = children.at(i);
                     break;
                 }
@@ -145,6 +147,7 @@ public:
                 /**
                  * The key_slice must be right direction of the index.
                  */
+                YK_VP(k_load, &children.at(n_key), 8, 0);
                 ret_child = children.at(n_key);
                 if (ret_child == nullptr) {
                     // SMOs have found, so retry from a root node
@@ -211,6 +214,7 @@ public:
                     shift_right_children(i + 1);
                     set_child_at(i + 1, child);
                     n_keys_increment();
+                    YK_VP(k_store, &n_keys_, 1, 0);
                     return;
                 }
                 // insert to middle points
@@ -219,6 +223,7 @@ public:
                 shift_right_children(i + 1);
                 set_child_at(i + 1, child);
                 n_keys_increment();
+                YK_VP(k_store, &n_keys_, 1, 0);
                 return;
             }
         }
@@ -226,6 +231,7 @@ public:
         set_key(n_key, key_slice, key_length);
         set_child_at(n_key + 1, child);
         n_keys_increment();
+        YK_VP(k_store, &n_keys_, 1, 0);
     }
 
     [[maybe_unused]] void
@@ -247,6 +253,7 @@ public:
 
     void set_n_keys(const n_keys_body_type new_n_key) {
         n_keys_.store(new_n_key, std::memory_order_release);
+        YK_VP(k_store, &n_keys_, 1, 0);
     }
 
     /**
